@@ -485,6 +485,19 @@ func vcliC17Session(r *verifrt.R, c *verifrt.Case, simple bool) {
 				st.respSent = true
 				r.Event("server_rst_stream", 1)
 			}
+		case a == 16 && rng.IntN(2) == 0:
+			// a SETTINGS frame that does not mention MAX_CONCURRENT_STREAMS (empty, or other
+			// parameters only): the limit sent earlier stays in force (RFC 9113 6.5: each
+			// parameter keeps its value until it is changed)
+			switch rng.IntN(3) {
+			case 0:
+				sc.SendSettings()
+			case 1:
+				sc.SendSettings(h2ref.Setting{ID: h2ref.SettingInitialWindowSize, Val: uint32(pick(65535, 100000, 1<<20))})
+			default:
+				sc.SendSettings(h2ref.Setting{ID: h2ref.SettingMaxFrameSize, Val: uint32(pick(16384, 65536))}, h2ref.Setting{ID: h2ref.SettingInitialWindowSize, Val: 70000})
+			}
+			r.Event("settings_without_stream_limit_sent", 1)
 		case a == 16: // answer delayed pings now / toggle
 			sc.AnswerPings()
 		case a == 17:
